@@ -6,6 +6,10 @@ commits = subprocess.run(["git","-C","/repo","log","--format=%H %s"],capture_out
 hook_commits = [c.split()[0] for c in commits if c.split(" ",1)[1].startswith("verif:")]
 
 CLAIMED = {
+ "C08": dict(
+   text="Static table invariants and contracts: every cell of the 26 disposition matrices/vectors of the arithmetic, bitwise, dot, min/max and math-library operators is read from the composite-literal initialiser of /repo and must hold a function whose own proved contract puts it in the class the null-data rule demands (absent op absent = absent, absent/empty identity returns the other operand pointer-identically, error with scalar = error, mirrored kinds for commutative operators); the dispatchers BIF_* are verified against the table contents for all 144 operand-kind pairs symbolically (index safety, kernel preconditions met in every cell).",
+   note="Assumed: tables are only stored to by the package initialiser (checked by a static scan of all stores, obligation #table.frame); singleton invariants (ABSENT, VOID, ...) assumed across unverified code; error-constructor contracts trusted; the pending (not yet inferred) case of Type() is specified under C06. Not decided here: the assignment-skip clause inside pkg/dsl/cst (interface dispatch over the AST node types) and variadic min/max folding.",
+   ref="DESIGN.md §3.C08"),
  "C07": dict(
    text="Machine-checked contracts on the real arithmetic kernels of pkg/bifs (arithmetic.go, bits.go, mathlib.go): every obligation is a verification condition generated from go/ssa of /repo's working tree (64-bit bit-vectors + IEEE-754 SMT floating point, no bound) and discharged by z3/cvc5. Postconditions are the sentences of the property (exact int when it fits, float otherwise, floor division, divisor-sign modulus, two's-complement dot/bit operators, shifts beyond 63, no panic).",
    note="Assumed: go/ssa construction; SMT solvers; math.Pow and other math-library functions uninterpreted (accuracy of ** not decided); float->int conversion out of range is an unspecified value (Go spec); error-constructor contracts trusted; dispatch through the disposition matrices is decided under C08, not here.",
